@@ -11,6 +11,8 @@ CONSTANTS
   Addrs = {"4096"}
   Grows = {}
   Lates = FALSE
+  AddAligns = {}
+  OnlyTiled = FALSE
   NopKinds = {"1", "4", "u"}
   VariantSet = "uninit"
   Rotate = 2
